@@ -270,9 +270,11 @@ let handle_eval id ast doc =
     (String.concat " " (List.map (fun (l, _) -> loc_str l ^ "|" ^ cps (np l)) r));
   let s = cur_query q d in
   Printf.printf "%s\tS\tOK\t%s\n" id (String.concat " " (List.map (fun (l, _) -> loc_str l) s));
-  Printf.printf "%s\tK\tnames_plain=%s names_single=%s doc_plain=%s exact53=%s wf=%s wfq=%s\n" id
+  let strict = strict_query q d in
+  let dotcr = (List.map fst strict <> List.map fst r) in
+  Printf.printf "%s\tK\tnames_plain=%s names_single=%s doc_plain=%s exact53=%s wf=%s wfq=%s rx=%s dotcr=%s\n" id
     (b01 (names_plain q)) (b01 (names_single q)) (b01 (doc_plain d)) (b01 (doc_exact53 d))
-    (b01 (wf_json d)) (b01 (wf_query q))
+    (b01 (wf_json d)) (b01 (wf_query q)) (b01 (rx_query_ok q d)) (b01 dotcr)
 
 let () =
   try
